@@ -31,13 +31,25 @@ theorem structCmp_eq_stdCore : ∀ a b, plain a = true → plain b = true → st
     apply then_congr_right; intro hl
     apply then_congr_right; intro _
     exact structCmpArgs_eq_stdCoreArgs as bs pa pb (Nat.compare_eq_eq.mp hl)
-  | .var _, b, ha, hb | .int _, b, ha, hb | .float _, b, ha, hb | .str _, b, ha, hb => by
+  | .var _, b, ha, hb | .int _, b, ha, hb | .float _, b, ha, hb => by
     cases b
     case app g bs =>
       have ⟨nb, pb⟩ := plain_app hb
       simp [structCmp, cmpHead, numKey_int, numKey_float, numKey_var, numKey_str, nb, unq, mapFunctor, stdCore, stdFlat, stdNumKey, rank]
       all_goals rfl
     all_goals simp [structCmp, cmpHead, numKey_int, numKey_float, numKey_var, numKey_str, unq, mapFunctor, stdCore, stdFlat, stdNumKey, rank, cmpNum_eq_stdNum]
+    all_goals rfl
+  | .str s, b, ha, hb => by
+    cases b
+    case app g bs =>
+      have ⟨nb, pb⟩ := plain_app hb
+      simp [structCmp, cmpHead, numKey_int, numKey_float, numKey_var, numKey_str, nb, unq, mapFunctor, stdCore, stdFlat, stdNumKey, rank]
+      rfl
+    case str t =>
+      have hs : stringText s = s := by simpa [plain] using ha
+      have ht : stringText t = t := by simpa [plain] using hb
+      simp [structCmp, cmpHead, numKey_str, unq, mapFunctor, stdCore, stdFlat, hs, ht]
+    all_goals simp [structCmp, cmpHead, numKey_int, numKey_float, numKey_var, numKey_str, unq, mapFunctor, stdCore, stdFlat, stdNumKey, rank]
     all_goals rfl
   | .app f as, .var _, ha, hb | .app f as, .int _, ha, hb | .app f as, .float _, ha, hb | .app f as, .str _, ha, hb => by
     have ⟨na, pa⟩ := plain_app ha
